@@ -1,6 +1,7 @@
 import JwtModel.Wire
 import JwtModel.Scope
 import JwtModel.HashId
+import JwtModel.Creds
 import JwtModel.Drive.Encode
 /-! Driver handlers for C14: `scopedsigner`, `issueuser`, `emptyperms`. -/
 namespace Jwt.Drive
@@ -44,6 +45,38 @@ def handleScope (fields : List String) : Option String :=
       | some base => some ("ok " ++ hexStr base)
       | none => some "err"
     | _, _, _ => some "unsupported"
+  | ["blocks", t] =>
+    match unhexStr t with
+    | some t => some ("[" ++ ",".intercalate ((Creds.blocks t).map hexStr) ++ "]")
+    | none => some "unsupported"
+  | ["parsejwt", t] =>
+    match unhexStr t with
+    | some t => some (hexStr (Creds.parseDecoratedJWT t))
+    | none => some "unsupported"
+  | ["seedtext", t] =>
+    match unhexStr t with
+    | some t =>
+      match Creds.decoratedSeedText t with
+      | some s =>
+        let role := match Creds.seedRole s with
+          | some .user => "U" | some .account => "A" | some .operator => "O" | some .server => "N"
+          | some .cluster => "C" | some .curve => "X" | _ => "-"
+        some s!"ok {hexStr s} {role}"
+      | none => some "err"
+    | none => some "unsupported"
+  | ["decorateseed", t] =>
+    match unhexStr t with
+    | some t => some (match Creds.decorateSeed t with | some d => "ok " ++ hexStr d | none => "err")
+    | none => some "unsupported"
+  | ["formatuserconfig", tok, seed, iss, b1, b2] =>
+    match unhexStr tok, unhexStr seed, unhexStr iss with
+    | some tok, some seed, some iss =>
+      some (showDRes hexStr (Creds.formatUserConfig (cryptoFor tok iss b1 b2) tok seed))
+    | _, _, _ => some "unsupported"
+  | ["decoratejwt", tok, iss, b1, b2] =>
+    match unhexStr tok, unhexStr iss with
+    | some tok, some iss => some (showDRes hexStr (Creds.decorateJWT (cryptoFor tok iss b1 b2) tok))
+    | _, _ => some "unsupported"
   | ["cleansubject", g] =>
     match unhexStr g with
     | some g => some (hexStr (cleanSubject g))
